@@ -450,6 +450,22 @@ fn scratch_dir() -> std::path::PathBuf {
     verif_dir().join(format!("work/c03-{}", std::process::id()))
 }
 
+/// The in-target oracle for byte-level fuzzing: parse the text with the real parser and judge the
+/// result exactly like the property check does. `Err((signature, detail))` on a violation.
+pub fn judge_text(cfg: &str) -> Result<(), (String, String)> {
+    let v = run_case(TextCase {
+        cfg: cfg.to_string(),
+        files: vec![("inc.kbd".into(), "(defalias inc a)\n".into()), ("chords.txt".into(), "ab\tx\n".into()), ("zippy.txt".into(), "ab\thi\n".into())],
+        via_file: false,
+        unreadable: vec![],
+        origin: "fuzz".into(),
+    });
+    match v.fail {
+        Some(f) => Err((f.sig, f.detail)),
+        None => Ok(()),
+    }
+}
+
 fn run_case(case: TextCase) -> Verdict {
     use kanata_parser::cfg;
     let my_parse = parse(&case.cfg);
